@@ -15,7 +15,7 @@ EXPLANATION = (
     "identifier inside try/except KeyError with an effect-free miss branch; fired entries leave their registry on the same "
     "path (at most once), removed entries are fired, transferred or re-registered (at least once); the identifier reaching "
     "encode() comes from the allocator, is the one copied to deferred.msgId, is never reassigned, is the registry key and "
-    "the callback argument. Decides these structural clauses for all paths; does not explore interleavings.")
+    "the callback argument. Decides these structural clauses for all paths; does not explore interleavings. R-FRAME: the premises of the framing lemma (every rule of C03) hold, a necessary condition of anything said about inbound packets.")
 ASSUMPTIONS = ["a broker answers a QoS 1 PUBLISH with PUBACK and a QoS 2 PUBLISH with PUBREC (the property's own quantifier)"]
 
 EXPECT_FIRE = {"windowPublish": "PUBACK", "windowPubRelease": "PUBCOMP", "windowSubscribe": "SUBACK",
